@@ -314,7 +314,9 @@ async fn network_names(_a: &Value) -> Value {
         let b = match alt { Some(a) => b.alternate_server_name(a), None => b };
         b.start(echo()).expect("network")
     }
-    let nets = [("a1", net(31, "net-a", None)), ("a2", net(32, "net-a", None)), ("b1", net(33, "net-b", None)), ("ab", net(34, "net-a", Some("net-b"))), ("ba", net(35, "net-b", Some("net-a")))];
+    // (u1, u2: a name that differs from net-a in one punctuation character only -- another network)
+    let nets = [("a1", net(31, "net-a", None)), ("a2", net(32, "net-a", None)), ("b1", net(33, "net-b", None)), ("ab", net(34, "net-a", Some("net-b"))), ("ba", net(35, "net-b", Some("net-a"))),
+                ("u1", net(36, "net_a", None)), ("u2", net(37, "net_a", None))];
     let mut out = Vec::new();
     for (i, (ni, x)) in nets.iter().enumerate() {
         for (j, (nj, y)) in nets.iter().enumerate() {
